@@ -121,6 +121,7 @@ type Features struct {
 	NoAssign          bool // no reassignment statements (besides while counters)
 	NoLitIdentity     bool // no 0/1/2/true/false literal as a direct operand of a binary operator
 	NoSelfOp          bool // no binary operator with two identical operands
+	ArrFork           bool // an array declaration is now and then followed by two different one-element extensions of it
 	SwapTwin          bool // now and then a declaration is followed by its operand-swapped twin
 	FreeVars          bool // free variables fi ff fs fb fa fo (bound by the caller at run time)
 }
@@ -128,10 +129,11 @@ type Features struct {
 func FullInterp() Features {
 	return Features{Floats: true, Strings: true, Arrays: true, Objects: true, While: true, For: true, Switch: true, Match: true, BreakContinue: true,
 		StatusReturn: true, Guards: true, UserFuncs: true, BuiltinsCore: true, BuiltinsInterp: true, LogicRhsMayFail: true, EqIntFloat: true, IllTyped: 4,
-		DivZero: true, IndexOOR: true, Mod: true, NestedReturn: true, DeclInBranch: true}
+		DivZero: true, IndexOOR: true, Mod: true, NestedReturn: true, DeclInBranch: true, ArrFork: true}
 }
 
 type G struct {
+	mustShow []string // variables every later result object exposes
 	R        *rand.Rand
 	F        Features
 	scope    []map[string]Ty
@@ -747,6 +749,33 @@ func (g *G) block(depth, n int, retT Ty) []*Stmt {
 				out = append(out, &Stmt{K: "decl", Name: n2, E: &tw})
 			}
 		}
+		if g.F.ArrFork && st.K == "decl" && g.R.Intn(3) == 0 {
+			// two different extensions of one array that is itself the result of a concatenation: each must keep its
+			// own last element (an engine that appends in place lets the second extension overwrite the first)
+			if t, ok := g.scope[len(g.scope)-1][st.Name]; ok && (t == TArrInt || t == TArrStr) {
+				el := func() *Expr {
+					if t == TArrStr {
+						return g.strLit()
+					}
+					return &Expr{K: "int", I: int64(100 + g.R.Intn(900))}
+				}
+				ext := func(base string, k int) string {
+					n := g.fresh("v")
+					e := &Expr{K: "bin", Op: "+", A: []*Expr{{K: "var", S: base}, {K: "arr"}}}
+					for j := 0; j < k; j++ {
+						e.A[1].A = append(e.A[1].A, el())
+					}
+					g.declare(n, t)
+					if l, known := g.arrLen[base]; known {
+						g.arrLen[n] = l + k
+					}
+					out = append(out, &Stmt{K: "decl", Name: n, E: e})
+					return n
+				}
+				common := ext(st.Name, 1+g.R.Intn(2))
+				g.mustShow = append(g.mustShow, ext(common, 1), ext(common, 1))
+			}
+		}
 	}
 	return out
 }
@@ -916,6 +945,19 @@ func (g *G) resultExpr() *Expr {
 			if i >= 2 || seen[v] {
 				break
 			}
+			seen[v] = true
+			e.Keys = append(e.Keys, "r_"+v)
+			e.A = append(e.A, &Expr{K: "var", S: v})
+		}
+	}
+	for _, v := range g.mustShow {
+		visible := false
+		for _, sc := range g.scope {
+			if _, ok := sc[v]; ok {
+				visible = true
+			}
+		}
+		if visible && !seen[v] {
 			seen[v] = true
 			e.Keys = append(e.Keys, "r_"+v)
 			e.A = append(e.A, &Expr{K: "var", S: v})
